@@ -579,6 +579,11 @@ def h6_fill_idempotent_zero_component(chk, rng, tier):
 
 # ---------------------------------------------------------------------------------------------------------------------
 # H7: iteration order of sets (the only place where the interpreter's hash seed can reach a value the code computes with)
+def _plain(it):
+    """Elements of an iterable for *building* another set: an OrderSet is read without drawing an order (the result is a set again)."""
+    return list(it._items) if isinstance(it, OrderSet) else list(it)
+
+
 class OrderSet:
     """Stand-in for the builtin `set` inside the analysed modules: same contents, but every iteration walks the elements in an order
     chosen by fresh finite-domain symbolic integers (a Lehmer code), so that the forking executor explores -- and z3 prunes -- every
@@ -586,7 +591,7 @@ class OrderSet:
     runs = [0]
 
     def __init__(self, it=()):
-        self._items = list(dict.fromkeys(it))
+        self._items = list(dict.fromkeys(_plain(it)))
 
     def __iter__(self):
         ctx = S.current()
@@ -613,21 +618,92 @@ class OrderSet:
             self._items.append(x)
 
     def __or__(self, o):
-        return OrderSet(list(self._items) + list(o))
+        return type(self)(list(self._items) + _plain(o))
 
     __ror__ = __or__
 
     def __and__(self, o):
-        return OrderSet([x for x in self._items if x in o])
+        return type(self)([x for x in self._items if x in o])
 
     def __sub__(self, o):
-        return OrderSet([x for x in self._items if x not in o])
+        return type(self)([x for x in self._items if x not in o])
 
     def __eq__(self, o):
-        return len(self) == len(o) and all(x in o for x in self._items)
+        return isinstance(o, (OrderSet, set, frozenset)) and len(self) == len(o) and all(x in o for x in self._items)
+
+    __hash__ = None
+
+    def __bool__(self):
+        return bool(self._items)
+
+    def union(self, *others):
+        out = type(self)(self._items)
+        for o in others:
+            out.update(o)
+        return out
+
+    def update(self, *others):
+        for o in others:
+            for x in _plain(o):
+                self.add(x)
+
+    def intersection(self, *others):
+        return type(self)([x for x in self._items if all(x in o for o in others)])
+
+    def difference(self, *others):
+        return type(self)([x for x in self._items if not any(x in o for o in others)])
+
+    def symmetric_difference(self, o):
+        o = _plain(o)
+        return type(self)([x for x in self._items if x not in o] + [x for x in o if x not in self._items])
+
+    __xor__ = symmetric_difference
+
+    def issubset(self, o):
+        return all(x in o for x in self._items)
+
+    __le__ = issubset
+
+    def issuperset(self, o):
+        return all(x in self._items for x in _plain(o))
+
+    __ge__ = issuperset
+
+    def isdisjoint(self, o):
+        return not any(x in o for x in self._items)
+
+    def discard(self, x):
+        if x in self._items:
+            self._items.remove(x)
+
+    def remove(self, x):
+        if x not in self._items:
+            raise KeyError(x)
+        self._items.remove(x)
+
+    def pop(self):
+        return list(self).pop(0) if not self._items else self._items.pop(list(self._items).index(next(iter(self))))
+
+    def copy(self):
+        return type(self)(self._items)
+
+    def clear(self):
+        del self._items[:]
 
     def __repr__(self):
         return "OrderSet(%r)" % (self._items,)
+
+
+def make_pset(perm_seed):
+    """Concrete twin of OrderSet for replays: the same set interface, iteration in the perm_seed-th permutation of the insertion order."""
+    import itertools as it
+
+    class PSet(OrderSet):
+        def __iter__(self):
+            items = list(self._items)
+            perms = list(it.islice(it.permutations(items), 0, 720))
+            return iter(perms[perm_seed % len(perms)])
+    return PSet
 
 
 def set_iteration_sites():
@@ -868,7 +944,7 @@ def h7c_config_order_to_files(chk, rng, tier):
                    "(%d merge orders explored; one file named by a pressure-base and a volume-base entry)" % (len(orders), len(paths)),
                    "unsat" if not fails else "sat", seconds=round(time.time() - t0, 2), kind="order-independence",
                    logic="QF_LRA(finite domain)", detail=fails[:3])
-    chk.witness("H7c more than one key order of the output section is reachable", "sat" if len(merged) >= 2 else "unsat")
+    chk.witness("H7c the merged configuration reaches write_output (%d key order(s) of the output section)" % len(merged), "sat" if results or fails else "unsat")
     if fails:
         replay_h7c(chk, cc, cfgmod, fails[0])
 
@@ -902,11 +978,7 @@ def replay_h7c(chk, cc, cfgmod, what):
         logging.disable(logging.CRITICAL)
         snaps = []
         for perm_seed in (0, 1, 2, 5):
-            class PSet(list):
-                def __init__(self, itb=()):
-                    items = list(dict.fromkeys(itb))
-                    perms = list(it.islice(it.permutations(items), 0, 720))
-                    list.__init__(self, perms[perm_seed % len(perms)])
+            PSet = make_pset(perm_seed)
             d = os.path.join(tmp, "out%d" % perm_seed)
             os.makedirs(d)
             with warnings.catch_warnings():
@@ -950,11 +1022,7 @@ def replay_h7_compliances(chk, cc, ks, what):
         A[i, j] = A[j, i] = (0.03 + 0.002 * n) if i == j else 0.004 + 0.0005 * n
     want = numpy.linalg.inv(A)
     for perm_seed in range(2):
-        class PSet(list):
-            def __init__(self, itb=()):
-                items = list(dict.fromkeys(itb))
-                perms = list(it.permutations(items))
-                list.__init__(self, perms[perm_seed % len(perms)])
+        PSet = make_pset(perm_seed)
         calc = object.__new__(cc.Calculator)
         q = PC.Obj()
         q.t_array = numpy.array([0.0, 300.0])
@@ -996,11 +1064,7 @@ def replay_h7_config(chk, cfgmod, what):
     default = {"qha": {"settings": {"NT": 16, "T_MIN": 0}, "input": "d.txt"}, "elast": {"settings": 1}, "output": {"pressure_base": ["cij"]}, "x": 3}
     expect = _ref_merge(user, default)
     for perm_seed in range(24):
-        class PSet(list):
-            def __init__(self, itb=()):
-                items = list(dict.fromkeys(itb))
-                perms = list(it.permutations(items))
-                list.__init__(self, perms[perm_seed % len(perms)])
+        PSet = make_pset(perm_seed)
         with patched((cfgmod, {"set": PSet})):
             try:
                 got = cfgmod.update_config(user, default)
